@@ -225,7 +225,7 @@ def pool_dist(rs):
             d["woken_polls"] += o.endswith("w")
     return d
 
-POOL_STREAM = {"name": "pool", "quick": 3000, "thorough": 200000, "sep": ";", "batch": 4000,
+POOL_STREAM = {"name": "pool", "quick": 3000, "thorough": 200000, "sep": ";", "batch": 4000, "keep": ["mark"],
                "nontrivial": pool_nontrivial, "distribution": pool_dist}
 POOL_RULE = ("random schedules (6-34 ops + drain/probe phase) of issue / poll / cancel / dial ok|ok+ALPN-h2|fail-connect|fail-handshake / "
              "finish / connection-ready / connection-close / run-tasks / real-time tick over 1-3 origins (differing in scheme, port, "
@@ -243,13 +243,19 @@ def pool_prop(mod, prefixes, theorems):
             "rule": POOL_RULE, "assumes": POOL_ASSUMES}
 
 PROPS = {
-    "C02": pool_prop("HdModel.Props.C02", ["C02/"], ["Hd.Pool.step"]),
-    "C03": pool_prop("HdModel.Props.C03", ["C03/"], ["Hd.Pool.step"]),
-    "C04": pool_prop("HdModel.Props.C04", ["C04/"], ["Hd.Pool.step"]),
-    "C05": pool_prop("HdModel.Props.C05", ["C05/"], ["Hd.Pool.step"]),
-    "C06": pool_prop("HdModel.Props.C06", ["C06/"], ["Hd.Pool.step"]),
-    "C14": pool_prop("HdModel.Props.C14", ["C14/"], ["Hd.Pool.step"]),
-    "C15": pool_prop("HdModel.Props.C15", ["C15/"], ["Hd.Pool.step"]),
+    "C02": pool_prop("HdModel.Props.C02", ["C02/"], ["Hd.Pool.C02_single_delivery", "Hd.Pool.C02_delivered_not_idle",
+        "Hd.Pool.C02_handback_only_when_ready", "Hd.Pool.C02_pop_not_busy", "Hd.Pool.C02_exec_marks_busy"]),
+    "C03": pool_prop("HdModel.Props.C03", ["C03/"], ["Hd.Pool.C03_cancel_releases", "Hd.Pool.C03_owner_drop_cancels",
+        "Hd.Pool.C03_released_waiter_resolves", "Hd.Pool.C03_released_dialer_continues", "Hd.Pool.C03_resolves_when_attempt_done"]),
+    "C04": pool_prop("HdModel.Props.C04", ["C04/"], ["Hd.Pool.C04_reuse_issue", "Hd.Pool.C04_reuse_poll", "Hd.Pool.C04_share_stays_pooled",
+        "Hd.Pool.C04_dedup_issue", "Hd.Pool.C04_dedup_poll", "Hd.Pool.C04_marker_owner", "Hd.Pool.issue_found", "Hd.Pool.issue_missing"]),
+    "C05": pool_prop("HdModel.Props.C05", ["C05/"], ["Hd.Pool.C05_pop_spec", "Hd.Pool.C05_expired_head", "Hd.Pool.C05_no_timeout_never_expires",
+        "Hd.Pool.C05_pop_suffix", "Hd.Pool.C05_issue_fresh"]),
+    "C06": pool_prop("HdModel.Props.C06", ["C06/"], ["Hd.Pool.C06_tokenOf", "Hd.Pool.C06_tokens_distinct", "Hd.Pool.C06_new_conn_origin",
+        "Hd.Pool.keysOk_init"]),
+    "C14": pool_prop("HdModel.Props.C14", ["C14/"], ["Hd.Pool.C14_preempt", "Hd.Pool.pushLoop_first_live", "Hd.Pool.C14_keeps_listening",
+        "Hd.Pool.C14_continue", "Hd.Pool.C14_discard"]),
+    "C15": pool_prop("HdModel.Props.C15", ["C15/"], ["Hd.Pool.C15_idle_bound", "Hd.Pool.step_idleBound", "Hd.Pool.push_idleBound"]),
     "C18": {
         "props_module": "HdModel.Props.C18",
         "class_prefix": ["C18/", "C08/bytes-altered"],
